@@ -29,15 +29,22 @@ type tcpEnv struct {
 	root string
 }
 
+// tcpCloseErr: the next library servers run over a filesystem whose handles report an error from Close()
+var tcpCloseErr bool
+
 func newTCPEnv(root string, whitelist string, maxClients int, readTimeout time.Duration) (*tcpEnv, error) {
 	socket, err := net.Listen("tcp4", "127.0.0.1:0")
 	if err != nil {
 		return nil, err
 	}
 	addr := socket.Addr().String()
+	var osfs afero.Fs = afero.NewOsFs()
+	if tcpCloseErr {
+		osfs = closeErrFs{osfs}
+	}
 	s := &server.Server[handler.State]{
 		Handler: &handler.Handler{
-			Fs:     &fs.FS{Fs: afero.NewBasePathFs(afero.NewOsFs(), root)},
+			Fs:     &fs.FS{Fs: afero.NewBasePathFs(osfs, root)},
 			Copier: copier.NewPooledCopier(65536),
 		},
 		ReadTimeout: readTimeout,
@@ -67,6 +74,7 @@ func (e *tcpEnv) dialFrom(src net.IP) (net.Conn, error) {
 }
 
 var statRootReq = creq{op: opStatFile, path: "/"}.bytes()
+var openDirRootReq = creq{op: opOpenDir, path: "/"}.bytes()
 
 // probe sends one STAT "/" and classifies: 's' answered (33 bytes), 'c' closed/reset without a byte,
 // 'w' nothing within the wait (still waiting), '?' anything else.
@@ -171,6 +179,7 @@ func c15Stream(o *out, r *rng, thorough bool) {
 		}
 		var env *tcpEnv
 		var srv *srvProc
+		holdDir := false
 		if oi >= nOrders {
 			var err error
 			srv, err = startServer(root, "", fmt.Sprintf("--max-clients=%d", N), "--client-whitelist="+wl)
@@ -181,11 +190,25 @@ func c15Stream(o *out, r *rng, thorough bool) {
 			env = &tcpEnv{addr: srv.addr(), root: root}
 			o.count("limit:real-binary")
 		} else {
+			// every second order: each client holds a directory open, and closing it reports an error when the
+			// connection ends - the slot must come back all the same ("every ended connection frees its slot")
+			holdDir = oi%2 == 1
+			tcpCloseErr = holdDir
 			var err error
 			env, err = newTCPEnv(root, wl, N, 0)
+			tcpCloseErr = false
 			if err != nil {
 				continue
 			}
+			if holdDir {
+				o.count("limit:close-reports-error")
+			}
+		}
+		hello := statRootReq
+		helloLen := 33
+		if holdDir {
+			hello = append(append([]byte{}, openDirRootReq...), statRootReq...)
+			helloLen = 37
 		}
 		nClients := N + 1 + r.intn(2*N+1)
 		if nClients > 4*N {
@@ -195,6 +218,7 @@ func c15Stream(o *out, r *rng, thorough bool) {
 			c      net.Conn
 			inside bool
 			state  byte // 'n' not arrived, 'w' waiting/unknown, 's' served, 'c' closed by server, 'd' departed
+			got    int  // bytes of the answer received so far
 		}
 		cls := make([]*cl, nClients)
 		var events []string
@@ -210,9 +234,10 @@ func c15Stream(o *out, r *rng, thorough bool) {
 				}
 				if c.state != 's' {
 					c.c.SetReadDeadline(time.Now().Add(15 * time.Millisecond))
-					buf := make([]byte, 33)
+					buf := make([]byte, helloLen-c.got)
 					n, err := io.ReadFull(c.c, buf)
-					if n == 33 {
+					c.got += n
+					if c.got == helloLen {
 						c.state = 's'
 					} else if n == 0 && err != nil {
 						if ne, ok := err.(net.Error); !(ok && ne.Timeout()) {
@@ -251,7 +276,7 @@ func c15Stream(o *out, r *rng, thorough bool) {
 				if err != nil {
 					cls[i] = &cl{state: 'c', inside: inside}
 				} else {
-					c.Write(statRootReq)
+					c.Write(hello)
 					cls[i] = &cl{c: c, inside: inside, state: 'w'}
 				}
 				in := 1
